@@ -213,7 +213,14 @@ def msrExpected (cse : Case) : String :=
 def isV2 (cse : Case) : Bool := cse.descs.any fun d =>
   d.kind == 'C' || d.kind == 'P' || d.kind == 'M' || d.schema == "f1" || d.schema == "f2" || d.schema == "f3"
 
+/-- BBS+ credentials under `limit_disclosure: required` (format of harness/cmd/corr/c20bbs.go): the credential the
+    verifier gets back reveals exactly the requested leaves of the credential subject (every requested path exists in the
+    harness's credential) -/
+def handleBBS (req : String) : String :=
+  "ok shown=" ++ ",".intercalate (sortStrings (req.splitOn ",").eraseDups)
+
 def handle (input : String) : String :=
+  if input.startsWith "bbs|" then handleBBS (String.ofList (input.toList.drop 4)) else
   if input.startsWith "sd|" then
     (match input.splitOn "|" with | [_, spec, req] => handleSD spec req | _ => "bad-input") else
   match parseCase input with
@@ -241,6 +248,10 @@ def sublists : List String → List (List String)
       pair in its descriptor map really credMatches, and the verifier accepts it and returns exactly those descriptors;
     * "no credentials" is only reported when no non-empty subset of the matchable descriptors satisfies the requirement -/
 def oracle (input implOut : String) : String :=
+  if input.startsWith "bbs|" then
+    (let want := handleBBS (String.ofList (input.toList.drop 4))
+     if implOut == want then implOut
+     else "LIMITED-DISCLOSURE-SHOWS-OTHER-FIELDS-THAN-REQUESTED: expected " ++ want) else
   if input.startsWith "sd|" then
     (match input.splitOn "|" with
      | [_, spec, req] =>
